@@ -14,6 +14,7 @@ import (
 	"reflect"
 	"sort"
 	"strconv"
+	"strings"
 	"sync"
 
 	"verifharness/fw"
@@ -251,7 +252,7 @@ func judgeC07(c *fw.Ctx, sc *SnapCase) {
 	}
 }
 
-var prC07 = &Profile{Sets: defaultSets, Kinds: []string{"star", "comb", "comb", "sliver", "angle", "rectholes", "rectholes", "spiky", "spiky", "grow", "junk", "motif", "border"}, MinIDs: 1, Huge: true, Zoo: true, TileWidth: true}
+var prC07 = &Profile{Sets: defaultSets, Kinds: []string{"star", "comb", "comb", "sliver", "angle", "rectholes", "rectholes", "spiky", "spiky", "grow", "junk", "motif", "border"}, MinIDs: 1, Huge: true, Zoo: true, Repeat: true, TileWidth: true}
 
 // c07HashPass: run by the parent in fresh processes; recomputes the result hash of every case.
 func c07HashPass(args []string) {
@@ -351,7 +352,7 @@ func c07ConcurrentPass(args []string) {
 		}
 		rng := fw.CaseRng(seed, "C07", "", idx)
 		sc, _ := genSnapCase(rng, prC07)
-		if sc == nil || sc.Kind == "huge" || sc.Kind == "zipper" {
+		if sc == nil || strings.HasPrefix(sc.Kind, "huge") || strings.HasPrefix(sc.Kind, "zipper") {
 			continue
 		}
 		r, pan := callSnap(sc, sc.IDs, sc.GeomPolygon(), sc.Reverse)
